@@ -72,7 +72,7 @@ def _query_points(model, rng, count):
             pt = Point(*pick(rng, verts))
         elif c == 'near_vertex':
             v = pick(rng, verts)
-            pt = Point(v[0] + float(rng.choice([-1e-9, 1e-9, 0])), v[1] + float(rng.choice([-1e-9, 1e-9, 0])))
+            pt = Point(v[0] + float(rng.choice([-1e-9, 1e-9, 0, 1e-10, -1e-10, 3e-8])), v[1] + float(rng.choice([-1e-9, 1e-9, 0, 1e-10, -1e-10, -3e-8])))
         elif c == 'shared_edge':
             ring = model.cells[pick(rng, live)]
             k = int(rng.integers(len(ring)))
@@ -122,7 +122,8 @@ def clip_geometries(model, rng, count):
         return []
     out = []
     classes = ['box_inside', 'box_inside', 'cover_all', 'hug_border', 'sliver', 'convex', 'concave', 'multi',
-               'line', 'point', 'touch_vertex', 'touch_edge', 'one_cell', 'cell_exact']
+               'line', 'point', 'touch_vertex', 'touch_edge', 'one_cell', 'cell_exact',
+               'diagonal_line', 'big_triangle', 'multi_overlap', 'ring']
     for _ in range(count):
         c = pick(rng, classes)
         if c == 'box_inside':
@@ -159,6 +160,18 @@ def clip_geometries(model, rng, count):
             a = box(minx - 0.1 * w, miny - 0.1 * h, minx + 0.25 * w, miny + 0.25 * h)
             b = box(maxx - 0.25 * w, maxy - 0.25 * h, maxx + 0.1 * w, maxy + 0.1 * h)
             g = MultiPolygon([a, b])
+        elif c == 'diagonal_line':       # envelope covers the whole model, the geometry does not
+            g = LineString([(minx - 0.1 * w, miny - 0.1 * h), (maxx + 0.1 * w, maxy + 0.1 * h)])
+        elif c == 'big_triangle':
+            g = Polygon([(minx - 0.2 * w, miny - 0.2 * h), (maxx + 0.2 * w, miny - 0.2 * h), (minx - 0.2 * w, maxy + 0.2 * h)])
+        elif c == 'ring':                # a polygon with a hole: the middle of the model is NOT part of it
+            outer = box(minx - 0.1 * w, miny - 0.1 * h, maxx + 0.1 * w, maxy + 0.1 * h)
+            g = Polygon(outer.exterior.coords, [box(minx + 0.2 * w, miny + 0.2 * h, maxx - 0.2 * w, maxy - 0.2 * h).exterior.coords])
+        elif c == 'multi_overlap':       # parts that overlap / several parts inside one cell
+            from shapely.geometry import GeometryCollection
+            p0 = polys[pick(rng, live)].representative_point()
+            parts = [p0, Point(p0.x + 1e-7 * w, p0.y), p0.buffer(0.3 * max(w, h) / max(2, len(live)) ** 0.5)]
+            g = pick(rng, [MultiPoint(parts[:2]), GeometryCollection(parts), MultiPolygon([parts[2], box(minx, miny, minx + 0.6 * w, miny + 0.6 * h)]).buffer(0) if False else GeometryCollection([parts[2], box(minx, miny, minx + 0.6 * w, miny + 0.6 * h)])])
         elif c == 'line':
             pts = [(float(rng.uniform(minx - 0.1 * w, maxx + 0.1 * w)), float(rng.uniform(miny - 0.1 * h, maxy + 0.1 * h)))
                    for _ in range(int(rng.integers(2, 5)))]
